@@ -1,8 +1,112 @@
-/- Model driver for C04 (stub: no ops yet). -/
+/-
+  Model driver for C04 (analysisperiod.py).  Line protocol: see DrvCore.  Mathlib-free.
+
+  A period is given by 8 tokens  st_month st_day st_hour end_month end_day end_hour timestep leap
+  (the first seven integers or `N` for Python `None`, leap `0|1`); it is built with `AP.mkOpt?`
+  exactly as `AnalysisPeriod(...)` would, so every op answers `err:<class>` for rejected arguments.
+-/
 import Ladybug.DrvCore
+import Ladybug.Model.AP
+
+open Drv Cal
 
 namespace DrvC04
-def handle (_toks : List String) : String := "bad-op"
+
+def showErr : Err → String
+  | .value => "err:value"
+  | .index => "err:index"
+  | .type => "err:type"
+
+def optInt? (s : String) : Option (Option Int) :=
+  if s = "N" then some none else s.toInt?.map some
+
+def period? (toks : List String) : Option (Except Err AP) :=
+  match toks with
+  | [a, b, c, d, e, f, g, l] => do
+    let a ← optInt? a
+    let b ← optInt? b
+    let c ← optInt? c
+    let d ← optInt? d
+    let e ← optInt? e
+    let f ← optInt? f
+    let g ← optInt? g
+    let l ← bool? l
+    pure (AP.mkOpt? a b c d e f g l)
+  | _ => none
+
+def showAP (r : Except Err AP) : String :=
+  match r with
+  | .error e => showErr e
+  | .ok ap =>
+    s!"ok {ap.st_month} {ap.st_day} {ap.st_hour} {ap.end_month} {ap.end_day} {ap.end_hour} {ap.timestep} " ++
+    s!"{showBool ap.leap} {showBool ap.isReversed} {showBool ap.isOvernight} {showBool ap.isAnnual} " ++
+    s!"{ap.stMoy} {ap.endMoy} {ap.step}"
+
+def onAP (r : Option (Except Err AP)) (f : AP → String) : String :=
+  match r with
+  | none => "bad-op"
+  | some (.error e) => showErr e
+  | some (.ok ap) => f ap
+
+def showList (l : List Nat) : String := s!"ok {l.length} " ++ showNats l
+
+def showDTs (l : List (Except Err DT)) : String :=
+  "ok " ++ joinSp (l.map fun r =>
+    match r with
+    | .ok d => s!"{d.month}-{d.day}-{d.hour}-{d.minute}-{showBool d.leap}"
+    | .error e => showErr e)
+
+def bits (l : List Bool) : String := String.ofList (l.map fun b => if b then '1' else '0')
+
+/-- `k=v` tokens; a token with value `N` (None) is dropped: `from_dict` treats a `None` value like
+    a missing key (`None or d`, and `end_hour is None`). -/
+def parseKV : List String → Option (List (String × Int))
+  | [] => some []
+  | t :: ts =>
+    match t.splitOn "=" with
+    | [k, v] =>
+      if v = "N" then parseKV ts
+      else match v.toInt?, parseKV ts with
+        | some n, some rest => some ((k, n) :: rest)
+        | _, _ => none
+    | _ => none
+
+def handle (toks : List String) : String :=
+  match toks with
+  | "from_string" :: rest => showAP (AP.fromString (" ".intercalate rest))
+  | "from_dict" :: rest =>
+    match parseKV rest with
+    | some kv => showAP (AP.fromDict kv)
+    | none => "bad-op"
+  | "included" :: rest =>
+    match period? (rest.take 8), nats (rest.drop 8) with
+    | some r, some ms => onAP (some r) fun ap => "ok " ++ bits (ms.map ap.includesMoy)
+    | _, _ => "bad-op"
+  | "possible" :: rest =>
+    match period? (rest.take 8), nats (rest.drop 8) with
+    | some r, some ms => onAP (some r) fun ap => "ok " ++ bits (ms.map ap.possibleMod)
+    | _, _ => "bad-op"
+  | op :: rest =>
+    if rest.length ≠ 8 then "bad-op"
+    else
+      let r := period? rest
+      match op with
+      | "mk" => match r with | some x => showAP x | none => "bad-op"
+      | "duplicate" => onAP r fun ap => showAP ap.duplicate
+      | "moys" => onAP r fun ap => showList ap.moys
+      | "hoys_int" => onAP r fun ap => showList ap.hoysInt
+      | "datetimes" => onAP r fun ap => showDTs ap.datetimes
+      | "len" => onAP r fun ap => s!"ok {ap.len}"
+      | "doys" => onAP r fun ap => showList ap.doysInt
+      | "months" => onAP r fun ap => showList ap.monthsInt
+      | "mph" => onAP r fun ap =>
+          "ok " ++ joinSp (ap.monthsPerHour.map fun t => s!"{t.1}-{t.2.1}-{t.2.2}")
+      | "repr" => onAP r fun ap => "ok " ++ ap.repr
+      | "to_dict" => onAP r fun ap =>
+          "ok " ++ joinSp (ap.toDict.map fun p => p.1 ++ "=" ++ toString p.2)
+      | _ => "bad-op"
+  | _ => "bad-op"
+
 end DrvC04
 
 def main : IO Unit := Drv.run DrvC04.handle
